@@ -80,30 +80,29 @@ Proof.
 Qed.
 
 Theorem ref_getters : forall hs path,
-  chain_valid hs = true ->
   exists w, final_w (ref hs path) = Some w /\ getters_spec w.
 Proof.
-  intros hs path Hv. destruct (ref_cases hs path) as [c Hc].
+  intros hs path. destruct (ref_cases hs path) as [c Hc].
   exists (c_w c). split.
   - destruct Hc as [E|E]; rewrite E; reflexivity.
   - eapply getters_ok; eauto.
 Qed.
 
 Theorem exec_getters : forall fuel hs path,
-  (length hs < fuel)%nat -> chain_valid hs = true ->
+  (length hs < fuel)%nat ->
   exists w, final_w (forget (exec fuel hs path)) = Some w /\ getters_spec w.
 Proof. intros. rewrite exec_ref by auto. apply ref_getters; auto. Qed.
 
 Theorem ref_recovered_status : forall hs path j sent code,
-  chain_valid hs = true -> In (ERecovered j sent code) (rtrace hs path) ->
+  In (ERecovered j sent code) (rtrace hs path) ->
   exists w, final_w (ref hs path) = Some w /\
     r_wrote (rc w) = true /\ r_code (rc w) = (if sent then code else 500%N) /\
     g_written w = true /\ g_status w = (if sent then code else 500%N).
 Proof.
-  intros hs path j sent code Hv Hin. destruct (ref_cases hs path) as [c Hc].
+  intros hs path j sent code Hin. destruct (ref_cases hs path) as [c Hc].
   exists (c_w c). split.
   - destruct Hc as [E|E]; rewrite E; reflexivity.
-  - apply (recovered_status hs path c Hv Hc j sent code).
+  - apply (recovered_status hs path c Hc j sent code).
     unfold rtrace in Hin. destruct Hc as [E|E]; rewrite E in Hin; exact Hin.
 Qed.
 
